@@ -136,10 +136,12 @@ def _substances(names, comp):
 
 CHARGE_BY_KEYWORD = ("e-", "B-", "Fe+3", "OH-")
 # species with non-integral composition numbers (CaSO4 hemihydrate) and reactions among them (the last two are unbalanced)
-NI_COMP = {"W": {1: 2, 8: 1}, "G": {20: 1, 16: 1, 8: 4}, "Gh": {20: 1, 16: 1, 8: 4.5, 1: 1}, "Gd": {20: 1, 16: 1, 8: 6, 1: 4}}
+NI_COMP = {"W": {1: 2, 8: 1}, "G": {20: 1, 16: 1, 8: 4}, "Gh": {20: 1, 16: 1, 8: 4.5, 1: 1}, "Gd": {20: 1, 16: 1, 8: 6, 1: 4},
+           # thirds and many-decimal amounts (a repeat unit of a polymer, a dopant): 3 * (1/3) == 1 and 8 * 0.0390625 == 0.3125 exactly
+           "T": {6: 1 / 3.0}, "B6": {6: 1}, "Dp": {6: 1, 15: 0.0390625}, "Dq": {6: 8, 15: 0.3125}}
 NI_RXNS = [({"Gh": 2, "W": 3}, {"Gd": 2}), ({"Gh": 2}, {"G": 2, "W": 1}), ({"Gd": 1}, {"G": 1, "W": 2}), ({"G": 1, "Gd": 1}, {"Gh": 2, "W": 1}),
-           ({"Gh": 2, "W": 2}, {"Gd": 2}), ({"Gh": 1}, {"G": 1, "W": 1})]
-NI_OK = [True, True, True, True, False, False]
+           ({"Gh": 2, "W": 2}, {"Gd": 2}), ({"Gh": 1}, {"G": 1, "W": 1}), ({"T": 3}, {"B6": 1}), ({"Dp": 8}, {"Dq": 1}), ({"T": 2}, {"B6": 1})]
+NI_OK = [True, True, True, True, False, False, True, True, False]
 
 
 def _mk_system(rxn_dicts, names, comp, params=None):
@@ -153,8 +155,27 @@ def _mk_system(rxn_dicts, names, comp, params=None):
 def _observe_construct(rxn_dicts, names, comp):
     try:
         rs = _mk_system(rxn_dicts, names, comp)
+        # the same reactions handed over as a one-shot iterable, the substances made by a factory: the same decision (here:
+        # accepted) and the same reactions
+        from chempy import Reaction, ReactionSystem, Substance
+
+        gen = (Reaction(rx[0], rx[1], i + 2, inact_reac=(rx[2] if len(rx) > 2 else None), inact_prod=(rx[3] if len(rx) > 2 else None)) for i, rx in enumerate(rxn_dicts))
+        rs_g = ReactionSystem(gen, substance_factory=lambda n: _substances([n], comp)[n])
+        if len(rs_g.rxns) != len(rxn_dicts):
+            return None, "EXC the system built from a generator of the same reactions holds %d of %d reactions" % (len(rs_g.rxns), len(rxn_dicts))
         return rs, "accepted"
     except ValueError as e:
+        # (an unbalanced set must be refused on the generator route as well)
+        try:
+            from chempy import Reaction, ReactionSystem
+
+            gen = (Reaction(rx[0], rx[1], i + 2, inact_reac=(rx[2] if len(rx) > 2 else None), inact_prod=(rx[3] if len(rx) > 2 else None)) for i, rx in enumerate(rxn_dicts))
+            ReactionSystem(gen, substance_factory=lambda n: _substances([n], comp)[n])
+            return None, "EXC refused as a list (%s) but accepted when the same reactions come from a generator" % e
+        except ValueError:
+            pass
+        except Exception:
+            pass  # (e.g. a reaction without net effect refused by Reaction itself)
         return None, "ValueError: %s" % e
     except Exception as e:
         return None, "EXC %s: %s" % (type(e).__name__, e)
